@@ -27,19 +27,19 @@ var propTable = map[string]propInfo{
 		"Meta M2: print-then-parse = identity by induction over trees from the per-node clauses and the Pratt lemma (M1); 'compiling is a fixed point' is a corollary",
 		"sign-token fusion (`1 - -2` printed as `1--2`, `a + ++b`) is excluded by the writer invariant NoFusion (a fold over the write history), proved for every writer method and printer after the fix; the statement-start hazard (an expression statement beginning with `{` or `function`) is NOT covered by a contract",
 	}},
-	"C06": {"proof", "Layout-only behaviour of the code writer and the printers: WriteSpace/WriteNewline/WriteIndent/IncreaseIndent/DecreaseIndent write nothing, record no mapping and are no-ops in compact mode; deferred layout consists of ' ', newline and indentation markers only and is written by flushPending once each, in order; WriteSemi emits ';' iff compact or WriteSemicolons and nothing else otherwise; every printer leaves IndentLevel as it found it; options (PrettyPrint, IndentString, WriteSemicolons) are outside every modifies clause; the [syntax] clause of each printer is stated over the token events only (layout calls ignored), hence identical for every option combination; Compile post-processes iff pretty printing is on.", []string{
+	"C06": {"proof", "Layout-only behaviour of the code writer and the printers: WriteSpace/WriteNewline/WriteIndent/IncreaseIndent/DecreaseIndent write nothing, record no mapping and are no-ops in compact mode; deferred layout consists of ' ', newline and indentation markers only and is written by flushPending once each, in order; WriteSemi emits ';' iff compact or WriteSemicolons and nothing else otherwise; every printer leaves IndentLevel as it found it; options (PrettyPrint, IndentString, WriteSemicolons) are outside every modifies clause; the [syntax] clause of each printer is stated over the token events only (layout calls ignored), hence identical for every option combination; Compile returns the writer's text as it stands in every configuration (no clean-up pass; the writer itself writes nothing in front of the first token, does not indent blank lines and does not print the blank lines at the very end); without optional semicolons the omitted terminator is remembered across layout and comments and written back by the next token write exactly when that token starts with ( [ + - or a backtick (restoreSemi), and before else (RequireSemi); the parser's statement-termination clauses (ExpectSemicolonASI) count for this property as well.", []string{
 		"'formatting the formatted output reproduces it' needs parse-then-print and the trivia round trip (Meta M2); not mechanised",
-		"separator safety without semicolons (`if (a) b else c`, statements starting with ( [ - or a backtick) is not covered by a contract in this revision; cleanEmptyLines is only verified for safety (its effect inside multi-line literals is a known weakness, see DESIGN)",
+		"three genuine defects found and fixed here: `if (a) b else c` without semicolons, statements starting with ( [ + - or a backtick joining the previous statement, and the clean-up pass that reached into multi-line literals (removed)",
 	}},
 	"C08": {"proof", "Position invariant J (the mapper's cursor equals the generated position of the writer's write history, where a string write advances like AdvanceString and a byte write is a column step or a line break) is required and ensured by every code-writer method and every printer, in compact and pretty mode (after the fix that routes layout whitespace and comments through the mapper); AddMapping/AddNamedMapping only request a mapping (nothing is written, nothing recorded); WriteString/WriteRune record the requested mapping after the deferred layout and after a separating space, and their [recorded] postcondition says that the segment's generated position advanced over the token text is the mapper's cursor, i.e. the segment starts exactly at the token's first character and points at the requested source position[, name] (after the fix that defers the mapping to the token write); layout-only methods, emit and comment replay keep the request and record nothing; in every printer the mapping request of a token is immediately followed by that token's text ([syntax] sequences), identifiers record a named mapping with their own name; Compile attaches a fresh mapper per call. Token start positions are C10's, the mappings string is C09's.", []string{
 		"generated positions are defined per write (a '\\r' ending one write and a '\\n' starting the next count as two breaks); columns are bytes, i.e. the proof assumes ASCII output (Source Map v3 counts UTF-16 units)",
-		"cleanEmptyLines (pretty mode) may trim leading/trailing whitespace after the map was produced; its effect on positions is not covered",
+		"nothing touches the text after the mapper has recorded positions: Compile [code] (the former clean-up pass, which could shift every line, was removed by a fix)",
 		"single characters are written with WriteRune only for ASCII other than CR (precondition checked at every call site)",
 	}},
 	"C15": {"proof", "Trivia pipeline as contracts: the lexer attaches the comment/blank-line list to the next token (C10 [trivia]); the parser stores consumed tokens verbatim, including the closing-brace token of blocks ([node]/[rbrace] clauses); each printer replays the leading comments of every token it stores exactly once, immediately before that token's mapping and text ([syntax] sequences, incl. the comments before a closing brace/bracket/parenthesis); WriteLeadingComments writes nothing in compact mode and nothing for an empty list, and in pretty mode leaves the writer on a fresh line (pending newline + indentation), so comment text cannot run into code.", []string{
 		"placement 'in front of the same statement' end-to-end is the induction over the tree (Meta M2)",
 		"comments before the end of input are attached to the end-of-input token, which ParseProgram now stores in Program.EOF ([eof]) and Program.WriteTo replays after the last statement ([syntax]); defect found and fixed",
-		"'verbatim' is up to trailing spaces (trimmed by the lexer and by cleanEmptyLines)",
+		"'verbatim' is up to trailing spaces (trimmed by the lexer); comments found in front of a semicolon are handed to the token after it (the semicolon is not kept in the tree): defect found and fixed",
 	}},
 	"C16": {"proof", "Every parse function of package parser (statement, expression, prefix, infix, list and helper functions, the interceptor wrappers, the registered-operator closures and the constructor) is verified against the frame contract [ctx]: the context stack on return equals the stack on entry, element-wise, on every return path including early error returns (deferred pops are executed by the engine's defer semantics). PushContext/PopContext/CurrentContext/IsInFunction are verified against exact sequence specifications (append, drop-last, last element, membership). Bracketing is stated as call-site obligations: every statement parsed inside ParseBlockStatement sees entry++[Block], the body of a function declaration/expression is parsed with entry++[Function], and no other parse step changes the stack around its sub-steps ([ctx.stable] at every call). newWithOptions/Build establish [Global]; by the frame contract ParseProgram returns with the stack it started with, for every input.", []string{
 		"the 'actual syntactic nesting' is the parser's own recursion: the contracts show the stack equals the chain of enclosing block/function activations (induction over the call tree, Meta M2, not mechanised); whether those activations are ECMAScript's nesting is property C02",
@@ -65,10 +65,10 @@ var propTable = map[string]propInfo{
 	"C13": {"proof", "The mode flags are outside the modifies clause of every parse function (frame obligations at every store), are set only by newWithOptions from the builder's fields, which Build copies unchanged and only With*Mode writes. The site-local behaviour is stated on the real functions: ExpectSemicolonASI in tolerant mode never records an error and returns true; ParseBlockStatement records the unclosed-block error exactly in strict mode; ParseRemainingExpressionWithPrecedence never continues an expression across a line break before '(' or '[' in smart mode and otherwise stops exactly when the strict climbing condition fails.", []string{
 		"lifting site-local equivalence of two runs that differ in a flag to whole-run equivalence is the standard non-interference argument (Meta M3), not mechanised",
 	}},
-	"C14": {"proof", "Sequential isolation as frame/ownership conditions: no parse function modifies anything outside the parser it is given and the lexer that parser owns (modifies clauses, checked at every heap store and map update); newWithOptions returns a fresh parser whose three tables are fresh objects distinct from the package-level table; Build (lexer and parser) has an empty modifies clause on the builder and returns fresh objects; NewBuilder returns fresh bookkeeping maps; package-level variables are only written by package initialisation.", []string{
+	"C14": {"proof", "Sequential isolation as frame/ownership conditions: no parse function modifies anything outside the parser it is given and the lexer that parser owns (modifies clauses, checked at every heap store and map update); newWithOptions returns a fresh parser whose three tables are fresh objects distinct from the package-level table; Build (lexer and parser) has an empty modifies clause on the builder and returns fresh objects; NewBuilder returns fresh bookkeeping maps; package-level variables are only written by package initialisation. Compiling never modifies the tree: node fields are outside the modifies clause of every printer and writer method, and slices stored in nodes are only ever read (prefix reslices are checked to flow into read-only uses). Compile configures a fresh writer from the compiler's own fields only (a fresh mapper iff a map is requested) and returns the writer's text unprocessed; requesting a mapping without a mapper changes nothing (AddMapping [no-mapper]), so the code does not depend on the source-map flag; debug.ToString is one WriteTo on a fresh compact writer.", []string{
 		"schedules and the race detector are outside what contracts can state; concurrency safety follows from 'no shared mutable state' (Meta M3)",
-		"backing-array aliasing of slices is not modelled (slice values have value semantics): in-place element writes into a slice shared with a builder are outside the subset and reported as such",
-		"'compiling never modifies the tree', 'source map never changes the code' and 'debug string = compact compile' are not mechanised in this revision",
+		"slice values have value semantics; backing-array sharing is excluded by a discipline instead of a model: x[:k] with k < len(x) and append(x[:k], ...) are obligations (safe:alias) unless the field is declared owned or the prefix provably flows into read-only uses; in-place element writes into a shared slice fail those obligations",
+		"determinism: no unit reads a mutable global or iterates over a map except in the set-building idiom of NewBuilder",
 	}},
 	"C10": {"proof", "All lexer functions are verified against contracts stated over the source text: the cursor invariant (line/column are the line-break count and the distance to the last line break of the byte offset, which never leaves the source), exact token starts/ends, tiling (NextToken starts at skipTrivia of the previous offset and ends inside the source), verbatim identifier/number slices with maximal munch for identifiers, keyword classification against the reserved-word list (keyword table invariant proved for package initialisation), operator classification and text, the after-newline flag, EOF exactly at the end and idempotent, absence of panics and termination of every loop (variants). Unbounded in input length; loops by invariants.", []string{
 		"a line break is '\\n'; a lone '\\r' is whitespace for this lexer and for the specification functions",
